@@ -30,13 +30,14 @@ CHECKS = {
             {"name": "TestC01Blocks", "quick": 40, "thorough": 7680},
             {"name": "TestC01Wide", "quick": 15, "thorough": 2880, "min_per_shard": 10},
             {"name": "TestC01Mid", "quick": 1500, "thorough": 288000},
+            {"name": "TestC01ManyFields", "quick": 150, "thorough": 14400},
             {"name": "TestC01Regress", "quick": 0},
         ],
         "assumptions": COMMON_ASSUMPTIONS,
     },
     "C02": {
         "level": "exploration",
-        "tests": fam("C02", (2500, 480000), (25, 4800), (10, 1920), regress=False, mid=(1200, 230400)),
+        "tests": fam("C02", (2500, 480000), (25, 4800), (10, 1920), regress=False, mid=(1200, 230400), extra=({"name": "TestC02ManyFields", "quick": 60, "thorough": 5760, "min_per_shard": 20},)),
         "assumptions": COMMON_ASSUMPTIONS,
     },
     "C03": {
@@ -51,7 +52,7 @@ CHECKS = {
     },
     "C06": {
         "level": "exploration",
-        "tests": fam("C06", (3000, 576000), (300, 57600)),
+        "tests": fam("C06", (3000, 576000), (300, 57600), extra=({"name": "TestC06ManyFields", "quick": 80, "thorough": 7680, "min_per_shard": 20},)),
         "assumptions": COMMON_ASSUMPTIONS,
     },
     "C05": {
